@@ -85,6 +85,16 @@ func genTotal(tier string, rng *RNG, emit func(Case)) {
 			})
 		}
 	}
+	// heading attribute blocks: every string of length <= 4 (thorough 5) over an attribute-syntax alphabet after "# a ",
+	// as ATX and as Setext heading, under the two configurations that have Attribute and AutoHeadingID on
+	attrN := 4
+	if tier == "thorough" {
+		attrN = 5
+	}
+	enumStrings(syms("{", "}", "=", "5", "i", "d", "\"", "[", "]", ",", ".", "#", " ", "-", "t"), attrN, func(b []byte) {
+		emit(Case{Op: "x", Args: []string{"1", hx(append([]byte("# a "), b...))}})
+		emit(Case{Op: "x", Args: []string{"2", hx(append(append([]byte("a "), b...), "\n===\n"...))}})
+	})
 	lattice := FullLattice()
 	DocStream(rng, ndocs, func(kind string, d []byte) {
 		c := lattice[rng.Intn(len(lattice))]
